@@ -5,9 +5,10 @@ An *assignment* maps field name -> value token; the token "UNSET" means "not pas
 field then holds its default, or nothing at all when it is mandatory).
 
 "set" (statement): a field holds a value that is neither None nor False (nor missing).
-The statement is silent on 0, "" and on False held by a `bool | None` field that is *required*
-by another one; each such occurrence is read both ways independently (three-valued evaluation) and a case whose
-outcome depends on a reading is classified MAY.
+Within the requires rule 0 and "" are set values (the statement lets them be *allowed values* of a set field).
+The statement is silent on 0 and "" in exclusive groups and on False held by a `bool | None` field that is
+*required* by another one; each such occurrence is read both ways independently (three-valued evaluation) and a
+case whose outcome depends on a reading is classified MAY.
 """
 UNSET = "UNSET"
 NODEF = "NODEF"
@@ -33,7 +34,10 @@ def _is_set(v, ftype, role):
     if v is True:
         return True
     if v == 0 or v == "":
-        return None
+        # inside the requires rule the statement itself makes a falsy value a set one ("set (to an allowed value
+        # where given)": 0 can be an allowed value), and "set" has one meaning within a rule; for exclusive
+        # groups the statement is silent
+        return None if role == "xor" else True
     return True
 
 
